@@ -79,12 +79,19 @@ def binding_names(elements):
     return names
 
 
-def real_route(elements, trailing, mode):
+def real_route(elements, trailing, mode, rebound=False):
     from clastic import Application, Route
     names = binding_names(elements)
     ep = eval('lambda %s: None' % ', '.join(names))
     patt = pattern_text(elements, trailing)
-    app = Application([Route(patt, ep)], slash_mode=mode)
+    if rebound:
+        # the route was first bound in an application with ANOTHER slash mode, which is then embedded at the root
+        # prefix: the route must follow the mode of the application that serves it
+        other = 'strict' if mode != 'strict' else 'redirect'
+        inner = Application([Route(patt, ep)], slash_mode=other)
+        app = Application([('/', inner)], slash_mode=mode)
+    else:
+        app = Application([Route(patt, ep)], slash_mode=mode)
     return app.routes[0], patt
 
 
@@ -145,13 +152,15 @@ def _work(chunk):
     N = chunk['N']
     out = []
     cache = {}
-    for (elements, trailing, mode) in chunk['items']:
-        rec = dict(pattern=None, mode=mode, queries=0, t=0.0, verdicts=[], witness=None, error=None)
+    for item in chunk['items']:
+        elements, trailing, mode = item[:3]
+        rebound = len(item) > 3 and item[3]
+        rec = dict(pattern=None, mode=mode + ('/rebound' if rebound else ''), queries=0, t=0.0, verdicts=[], witness=None, error=None)
         try:
-            route, patt = real_route(elements, trailing, mode)
+            route, patt = real_route(elements, trailing, mode, rebound)
             rec['pattern'] = patt
             rx = route.regex.pattern
-            key = (rx, tuple(elements), trailing, mode == 'strict')
+            key = (rx, tuple(elements), trailing, mode == 'strict', rebound)
             if key in cache:
                 rec.update(cache[key])
                 rec['cached'] = True
@@ -184,7 +193,7 @@ def _work(chunk):
                         may_ok = re.match(spec_regex_text(elements, trailing, mode, T_MAY), w) is not None
                         real_violation = (not may_ok) and got is not None
                     rec['witness'] = dict(tag=tag, path=w, match_path=repr(got), reproduces=real_violation,
-                                          elements=elements, trailing=trailing)
+                                          elements=elements, trailing=trailing, rebound=rebound)
                     # translator check: z3 membership must agree with the real regex on the witness
                     if (route.regex.match(w) is not None) != E4.member(w, impl):
                         rec['error'] = 'translator disagreement on %r' % w
@@ -307,7 +316,7 @@ def replay(pl):
         print('match_path(%r) on %s -> %r' % (pl['path'], pl['pattern'], got))
         return 1 if got is None else 0
     elements = [tuple(e) for e in pl['elements']]
-    route, patt = real_route(elements, pl['trailing'], pl['mode'])
+    route, patt = real_route(elements, pl['trailing'], pl['mode'].split('/')[0], pl.get('rebound', False))
     got = route.match_path(pl['path'])
     print('pattern %s mode %s path %r -> %r' % (patt, pl['mode'], pl['path'], got))
     if k == 'raises':
@@ -317,9 +326,9 @@ def replay(pl):
     if k == 'conversion':
         bad = got is not None and not check_assignment(elements, got, pl['path'], pl['mode'])
     elif pl['tag'] == 'must_subset_impl':
-        bad = got is None and re.match(spec_regex_text(elements, pl['trailing'], pl['mode'], T_MUST), pl['path']) is not None
+        bad = got is None and re.match(spec_regex_text(elements, pl['trailing'], pl['mode'].split('/')[0], T_MUST), pl['path']) is not None
     else:
-        bad = got is not None and re.match(spec_regex_text(elements, pl['trailing'], pl['mode'], T_MAY), pl['path']) is None
+        bad = got is not None and re.match(spec_regex_text(elements, pl['trailing'], pl['mode'].split('/')[0], T_MAY), pl['path']) is None
     print('REPRODUCED' if bad else 'not reproduced')
     return 1 if bad else 0
 
@@ -340,6 +349,7 @@ def run(ctx):
         four = [tuple(rnd.choice(ELEMENTS) for _ in range(4)) for _ in range(1500)]
         combos += four
     items = [(c, tr, m) for c in combos for tr in (False, True) for m in MODES]
+    items += [(c, tr, m, True) for c in combos[:40 if not T else 400] for tr in (False, True) for m in MODES]
     rnd.shuffle(items)
     nchunks = NCPU * 4
     chunks = [dict(N=N, items=items[i::nchunks]) for i in range(nchunks)]
